@@ -1181,6 +1181,13 @@ class Interp:
                     self.bind_match(arm["pat"], scrut, env)
                     return self.ev_raw(arm["body"], env)
             raise Unanalysable(f"no arm matches {scrut!r}")
+        if isinstance(scrut, Tup) and all(isinstance(self.deref(x_), Enum) for x_ in scrut.items):
+            # tuple of concrete variants: `match (a.last(), b.last_mut()) { (Some(x), Some(y)) => .., _ => .. }`
+            for arm in e["arms"]:
+                if arm.get("guard") is None and self.pat_matches(arm["pat"], scrut):
+                    self.bind_match(arm["pat"], scrut, env)
+                    return self.ev_raw(arm["body"], env)
+            raise Unanalysable(f"no arm matches {scrut!r}")
         if isinstance(scrut, Opaque) and scrut.what == "result":
             c = Cond("is_ok", text=repr(scrut))
             scrut = Ite(c, Enum("Result", "Ok", [scrut.info.get("ok", UNIT)]), Enum("Result", "Err", [scrut.info.get("err", Opaque("error-value"))]))
@@ -1276,6 +1283,9 @@ class Interp:
             return isinstance(v, Enum) and v.variant == name
         if k == "OrPat":
             return any(self.pat_matches(p, v) for p in pat["pats"])
+        if k == "TuplePat":
+            v = self.deref(v)
+            return isinstance(v, Tup) and len(v.items) == len(pat["pats"]) and all(self.pat_matches(p_, self.deref(x_)) for p_, x_ in zip(pat["pats"], v.items))
         return False
 
     def bind_match(self, pat, v, env):
